@@ -29,6 +29,15 @@
 (* name and every use resolves to its intended binder.  The property says: *)
 (* all legal namings of a program compile to the same bytes, and a use     *)
 (* placed where its binder is not visible is rejected.                     *)
+(*                                                                         *)
+(* Modules: a program may consist of several files.  Every file has its    *)
+(* own module globals; std names (module 0) are visible in every file;     *)
+(* `m.x` (quse) looks x up among the globals of module m only.  The        *)
+(* program's entry is an implicit use of `start` at the top level of the   *)
+(* main module.  Type, std and namespace names are binders with a fixed    *)
+(* name, so that a naming may give a variable a name WITH A ROLE (`start`, *)
+(* `print`, `list`, `E`): it is legal iff nothing that needs the role is   *)
+(* hidden by it.                                                           *)
 (***************************************************************************)
 EXTENDS SyltAst, FiniteSets, TLC
 
@@ -43,13 +52,39 @@ DeclareEv(b, bk) == Ev("declare", "-", b, bk, 0)
 UseEv(b) == Ev("use", "-", b, "-", 0)
 PlantedUseEv(b) == Ev("use", "-", b, "-", 1)       \* s = 1 marks the planted use of an out-of-scope variant
 SlotEv(s) == Ev("slot", "-", 0, "-", s)
+QUseEv(b) == Ev("quse", "-", b, "-", 0)            \* `m.x`: x among the globals of b's module
+ModuleEv(m) == Ev("module", "-", m, "-", 0)        \* what follows is top-level text of module m
+TopEv(b) == Ev("top", "-", b, "-", 0)              \* what follows is the initialiser of global b
 
 EnterKinds == {"enterfn", "enterblock", "enterbranch", "enterarm", "enterloop"}
 ExitKinds == {"exitfn", "exitblock", "exitbranch", "exitarm", "exitloop"}
-EventKinds == EnterKinds \cup ExitKinds \cup {"declare", "use", "slot"}
+EventKinds == EnterKinds \cup ExitKinds \cup {"declare", "use", "quse", "slot", "module", "top"}
 FrameKinds == {"fn", "block", "if-branch", "elif-branch", "else-branch", "case-arm", "case-else", "loop"}
 
+(* ------------------------------------------------ binders with a fixed name *)
+SStart == 1000
+StdPrint == 2001
+StdList == 2002
+StdOther == 2003
+IsPrefix(p, t) == Len(t) >= Len(p) /\ SubSeq(t, 1, Len(p)) = p
+StdId(name) == IF name = "print" THEN StdPrint ELSE IF IsPrefix("list.", name) THEN StdList ELSE StdOther
+TypeId(name) == CASE name = "E" -> 3001 [] name = "B" -> 3002 [] name = "M" -> 3003 [] name = "P" -> 3004
+                  [] name = "Q" -> 3005 [] OTHER -> 3009
+NsId(name) == 4002
+StdMap == (StdPrint :> 0) @@ (StdList :> 0) @@ (StdOther :> 0)
+
 (* ------------------------------------------------- the walk: AST -> events *)
+RECURSIVE LinTy(_)
+RECURSIVE LinTys(_, _)
+LinTys(ts, i) == IF i > Len(ts) THEN <<>> ELSE LinTy(ts[i]) \o LinTys(ts, i + 1)
+\* a written type mentions type names
+LinTy(t) ==
+    CASE t.k = "tname" -> <<UseEv(TypeId(t.n))>>
+      [] t.k = "ttuple" -> LinTys(t.es, 1)
+      [] t.k = "tlist" -> LinTy(t.e)
+      [] t.k = "tfn" -> LinTys(t.ps, 1) \o LinTy(t.r)
+      [] OTHER -> <<>>
+
 RECURSIVE LinE(_)
 RECURSIVE LinS(_)
 RECURSIVE LinSeqE(_, _)
@@ -61,7 +96,7 @@ RECURSIVE LinFields(_, _)
 
 LinSeqE(es, i) == IF i > Len(es) THEN <<>> ELSE LinE(es[i]) \o LinSeqE(es, i + 1)
 LinSeqS(ss, i) == IF i > Len(ss) THEN <<>> ELSE LinS(ss[i]) \o LinSeqS(ss, i + 1)
-LinParams(ps, i) == IF i > Len(ps) THEN <<>> ELSE <<DeclareEv(ps[i].b, "param")>> \o LinParams(ps, i + 1)
+LinParams(ps, i) == IF i > Len(ps) THEN <<>> ELSE <<DeclareEv(ps[i].b, "param")>> \o LinTy(ps[i].ty) \o LinParams(ps, i + 1)
 LinFields(fs, i) == IF i > Len(fs) THEN <<>> ELSE LinE(fs[i].e) \o LinFields(fs, i + 1)
 
 \* if / elif / else: the condition belongs to the enclosing scope, the body is a scope of its own
@@ -80,7 +115,9 @@ LinCArms(arms, i) ==
          \o LinSeqS(arms[i].body, 1) \o <<Exit("exitarm", "case-arm")>> \o LinCArms(arms, i + 1)
 
 LinE(e) ==
-    CASE e.k \in {"int", "float", "str", "bool", "nil", "std", "self"} -> <<>>
+    CASE e.k \in {"int", "float", "str", "bool", "nil", "self"} -> <<>>
+      [] e.k = "std" -> <<UseEv(StdId(e.name))>>
+      [] e.k = "qvar" -> <<UseEv(NsId(e.ns)), QUseEv(e.b)>>
       [] e.k = "var" -> IF "planted" \in DOMAIN e THEN <<PlantedUseEv(e.b)>> ELSE <<UseEv(e.b)>>
       [] e.k = "eslot" -> <<SlotEv(e.id)>>
       [] e.k = "bin" -> LinE(e.l) \o LinE(e.r)
@@ -90,18 +127,20 @@ LinE(e) ==
                          \o (IF e.hasels
                              THEN <<Ev("enterarm", "case-else", 0, "-", 0)>> \o LinSeqS(e.els, 1) \o <<Exit("exitarm", "case-else")>>
                              ELSE <<>>)
-      [] e.k = "fn" -> <<Enter("enterfn", "fn")>> \o LinParams(e.params, 1) \o LinSeqS(e.body, 1) \o <<Exit("exitfn", "fn")>>
+      [] e.k = "fn" -> <<Ev("enterfn", "fn", 0, IF e.ret.k = "tvoid" THEN "void" ELSE "value", 0)>>
+                       \o LinParams(e.params, 1) \o LinTy(e.ret) \o LinSeqS(e.body, 1) \o <<Exit("exitfn", "fn")>>
       [] e.k = "call" -> LinE(e.f) \o LinSeqE(e.args, 1)
       [] e.k \in {"tuple", "list"} -> LinSeqE(e.es, 1)
-      [] e.k = "blob" -> LinFields(e.fields, 1)
+      [] e.k = "blob" -> <<UseEv(TypeId(e.name))>> \o LinFields(e.fields, 1)
       [] e.k \in {"fld", "idx"} -> LinE(e.e)
-      [] e.k = "variant" -> IF e.has THEN LinE(e.e) ELSE <<>>
+      [] e.k = "variant" -> <<UseEv(TypeId(e.enum))>> \o (IF e.has THEN LinE(e.e) ELSE <<>>)
 
 LinS(st) ==
     CASE st.k = "def" -> IF st.e.k = "fn"
                          THEN <<DeclareEv(st.b, "fnlocal")>> \o LinE(st.e)      \* visible in its own body
-                         ELSE LinE(st.e) \o <<DeclareEv(st.b, "local")>>        \* visible after the initialiser
-      [] st.k = "asg" -> LinE(st.e) \o (IF st.t.k = "var" THEN <<UseEv(st.t.b)>> ELSE LinE(st.t.e))
+                         ELSE LinE(st.e) \o <<DeclareEv(st.b, "local")>> \o LinTy(st.ty)   \* visible after the initialiser
+                         \* (the written type is walked last: a variable that takes its own type's name is not legal)
+      [] st.k = "asg" -> LinE(st.e) \o (IF st.t.k = "var" THEN LinE(st.t) ELSE LinE(st.t.e))
       [] st.k = "loop" -> LinE(st.c) \o <<Enter("enterloop", "loop")>> \o LinSeqS(st.body, 1) \o <<Exit("exitloop", "loop")>>
       [] st.k = "ret" -> IF st.has THEN LinE(st.e) ELSE <<>>
       [] st.k = "block" -> <<Enter("enterblock", "block")>> \o LinSeqS(st.body, 1) \o <<Exit("exitblock", "block")>>
@@ -109,24 +148,43 @@ LinS(st) ==
       [] st.k = "slot" -> <<SlotEv(st.id)>>
       [] st.k \in {"break", "continue", "unreach", "enum", "blobdecl", "raw"} -> <<>>
 
-\* top level: every definition is a module global; its initialiser is walked with an empty stack
+\* top level: every definition is a global of the module it is written in (a "module" node switches to the next
+\* file); its initialiser is walked with an empty stack.  The program ends with the implicit call of the main
+\* module's `start`.
 RECURSIVE LinTopsFrom(_, _)
 LinTopsFrom(tops, i) ==
     IF i > Len(tops) THEN <<>>
-    ELSE (IF tops[i].k = "def" THEN LinE(tops[i].e) ELSE <<>>) \o LinTopsFrom(tops, i + 1)
-LinTops(tops) == LinTopsFrom(tops, 1)
+    ELSE (IF tops[i].k = "def" THEN <<TopEv(tops[i].b)>> \o LinE(tops[i].e) \o LinTy(tops[i].ty)
+          ELSE IF tops[i].k = "module" THEN <<ModuleEv(tops[i].m)>>
+          ELSE <<>>) \o LinTopsFrom(tops, i + 1)
+HasStart(tops) == \E i \in 1..Len(tops) : tops[i].k = "def" /\ tops[i].b = SStart
+LinTops(tops) == LinTopsFrom(tops, 1) \o (IF HasStart(tops) THEN <<ModuleEv(1), TopEv(0), UseEv(SStart)>> ELSE <<>>)
 
-GlobalIdx(tops) == {i \in 1..Len(tops) : tops[i].k = "def"}
-Globals(tops) == {tops[i].b : i \in GlobalIdx(tops)}
-GlobalKind(tops, g) == LET i == CHOOSE j \in GlobalIdx(tops) : tops[j].b = g
-                       IN IF tops[i].e.k = "fn" THEN "globalfn" ELSE "global"
+\* the module globals: binder -> module (0 = std, visible everywhere; 1 = main file; 2.. = further files)
+RECURSIVE GMapFrom(_, _, _)
+GMapFrom(tops, i, m) ==
+    IF i > Len(tops) THEN StdMap
+    ELSE IF tops[i].k = "module" THEN GMapFrom(tops, i + 1, tops[i].m)
+    ELSE IF tops[i].k = "def" THEN (tops[i].b :> m) @@ GMapFrom(tops, i + 1, m)
+    ELSE IF tops[i].k \in {"enum", "blobdecl"} THEN (TypeId(tops[i].name) :> m) @@ GMapFrom(tops, i + 1, m)
+    ELSE IF tops[i].k = "use" THEN (NsId(tops[i].name) :> m) @@ GMapFrom(tops, i + 1, m)
+    ELSE GMapFrom(tops, i + 1, m)
+Globals(tops) == GMapFrom(tops, 1, 1)
+DefIdx(tops) == {i \in 1..Len(tops) : tops[i].k = "def"}
+GlobalKind(tops, g) ==
+    IF \E j \in DefIdx(tops) : tops[j].b = g
+    THEN (IF tops[CHOOSE j \in DefIdx(tops) : tops[j].b = g].e.k = "fn" THEN "globalfn" ELSE "global")
+    ELSE "fixed"
+SameScope(G, g, h) == G[g] = G[h] \/ G[g] = 0 \/ G[h] = 0
+VisibleIn(G, g, m) == G[g] = m \/ G[g] = 0
 
 (* ------------------------------------------------------- the scope machine *)
 \* nm: function binder id -> name; binders outside its domain keep a fixed private name
 NameOf(nm, b) == IF b \in DOMAIN nm THEN nm[b] ELSE 0 - b
 
-EmptySt == [stack |-> <<>>, frames |-> <<>>, res |-> <<>>, dup |-> FALSE]
-InitSt(G, nm) == [EmptySt EXCEPT !.dup = \E g \in G : \E h \in G : g # h /\ NameOf(nm, g) = NameOf(nm, h)]
+EmptySt == [stack |-> <<>>, frames |-> <<>>, res |-> <<>>, dup |-> FALSE, mod |-> 1]
+InitSt(G, nm) == [EmptySt EXCEPT !.dup = \E g \in DOMAIN G : \E h \in DOMAIN G :
+                                           g # h /\ SameScope(G, g, h) /\ NameOf(nm, g) = NameOf(nm, h)]
 
 TopFrame(st) == st.frames[Len(st.frames)]
 FrameBase(st) == IF Len(st.frames) = 0 THEN 0 ELSE TopFrame(st).base
@@ -144,9 +202,13 @@ Innermost(stack, n) ==
 Lookup(st, n, G, nm) ==
     LET l == Innermost(st.stack, n) IN
     IF l # 0 THEN l
-    ELSE LET M == {g \in G : NameOf(nm, g) = n} IN IF M = {} THEN 0 ELSE CHOOSE g \in M : TRUE
+    ELSE LET M == {g \in DOMAIN G : VisibleIn(G, g, st.mod) /\ NameOf(nm, g) = n} IN IF M = {} THEN 0 ELSE CHOOSE g \in M : TRUE
 UseB(st, b, planted, G, nm) ==
     [st EXCEPT !.res = Append(@, [u |-> b, r |-> Lookup(st, NameOf(nm, b), G, nm), p |-> planted])]
+\* `m.x`: only the globals of module m (the module of the intended binder) are candidates
+QUseB(st, b, G, nm) ==
+    LET M == {g \in DOMAIN G : G[g] = G[b] /\ NameOf(nm, g) = NameOf(nm, b)} IN
+    [st EXCEPT !.res = Append(@, [u |-> b, r |-> IF M = {} THEN 0 ELSE CHOOSE g \in M : TRUE, p |-> 0])]
 
 EnterArmB(st, ev, nm, id) == IF ev.b = 0 THEN Push(st, ev.fk, id) ELSE DeclareB(Push(st, ev.fk, id), ev.b, nm)
 
@@ -159,7 +221,9 @@ Step(st, ev, G, nm, idx) ==
       [] ev.k \in ExitKinds -> Pop(st)
       [] ev.k = "declare" -> DeclareB(st, ev.b, nm)
       [] ev.k = "use" -> UseB(st, ev.b, ev.s, G, nm)
-      [] ev.k = "slot" -> st
+      [] ev.k = "quse" -> QUseB(st, ev.b, G, nm)
+      [] ev.k = "module" -> [st EXCEPT !.mod = ev.b]
+      [] ev.k \in {"slot", "top"} -> st
 
 RECURSIVE RunFrom(_, _, _, _, _)
 RunFrom(evs, i, st, G, nm) == IF i > Len(evs) THEN st ELSE RunFrom(evs, i + 1, Step(st, evs[i], G, nm, i), G, nm)
@@ -185,17 +249,17 @@ WellNested(evs) == NestedFrom(evs, 1, <<>>)
 \* the binders visible at every slot, and the CONFLICTS: pairs of binders that must not share a name
 \* (same frame / both global, or one is used while the other would hide it).
 ScanInit(G, gk) ==
-    [stack |-> <<>>, frames |-> <<>>, home |-> [g \in G |-> <<>>], declAt |-> [g \in G |-> 0], bk |-> gk,
-     fkOf |-> <<>>, exitAt |-> <<>>, slots |-> <<>>, order |-> <<>>,
-     conf |-> {p \in G \X G : p[1] < p[2]}]
+    [stack |-> <<>>, frames |-> <<>>, home |-> [g \in DOMAIN G |-> <<>>], declAt |-> [g \in DOMAIN G |-> 0], bk |-> gk,
+     fkOf |-> <<>>, rtOf |-> <<>>, exitAt |-> <<>>, slots |-> <<>>, order |-> <<>>, mod |-> 1, top |-> 0,
+     conf |-> {p \in (DOMAIN G) \X (DOMAIN G) : p[1] < p[2] /\ SameScope(G, p[1], p[2])}]
 
 STop(sc) == sc.frames[Len(sc.frames)]
 SBase(sc) == IF Len(sc.frames) = 0 THEN 0 ELSE STop(sc).base
 FrameIds(sc) == [i \in 1..Len(sc.frames) |-> sc.frames[i].id]
 OnStack(sc) == {sc.stack[i] : i \in 1..Len(sc.stack)}
 
-SPush(sc, fk, id) == [sc EXCEPT !.frames = Append(@, [fk |-> fk, base |-> Len(sc.stack), id |-> id]),
-                                !.fkOf = @ @@ (id :> fk)]
+SPush(sc, fk, rt, id) == [sc EXCEPT !.frames = Append(@, [fk |-> fk, base |-> Len(sc.stack), id |-> id]),
+                                    !.fkOf = @ @@ (id :> fk), !.rtOf = @ @@ (id :> rt)]
 SPop(sc, idx) == [sc EXCEPT !.stack = SubSeq(@, 1, STop(sc).base), !.frames = SubSeq(@, 1, Len(@) - 1),
                             !.exitAt = @ @@ (STop(sc).id :> idx)]
 SDeclare(sc, b, bk, idx) ==
@@ -204,28 +268,35 @@ SDeclare(sc, b, bk, idx) ==
                !.bk = @ @@ (b :> bk), !.order = Append(@, b)]
 SUse(sc, c, G) ==
     LET hits == {i \in 1..Len(sc.stack) : sc.stack[i] = c} IN
-    IF hits = {} /\ c \notin G THEN sc       \* a use outside its binder's scope constrains nothing
+    IF hits = {} /\ ~(c \in DOMAIN G /\ VisibleIn(G, c, sc.mod)) THEN sc    \* a use outside its binder's scope constrains nothing
     ELSE LET pos == IF hits = {} THEN 0 ELSE MaxOfSet(hits)
          IN [sc EXCEPT !.conf = @ \cup {<<c, sc.stack[j]>> : j \in (pos + 1)..Len(sc.stack)}]
-SSlot(sc, s, idx) == [sc EXCEPT !.slots = @ @@ (s :> [path |-> FrameIds(sc), idx |-> idx, vis |-> OnStack(sc)])]
+\* the return kind of the innermost function around the current point ("none" at module level)
+FnRt(sc) == LET F == {i \in 1..Len(sc.frames) : sc.frames[i].fk = "fn"} IN
+            IF F = {} THEN "none" ELSE sc.rtOf[sc.frames[MaxOfSet(F)].id]
+SSlot(sc, s, idx) == [sc EXCEPT !.slots = @ @@ (s :> [path |-> FrameIds(sc), idx |-> idx, vis |-> OnStack(sc),
+                                                       mod |-> sc.mod, top |-> sc.top, fnrt |-> FnRt(sc)])]
 
 ScanStep(sc, ev, G, idx) ==
-    CASE ev.k \in {"enterfn", "enterblock", "enterbranch", "enterloop"} -> SPush(sc, ev.fk, idx)
-      [] ev.k = "enterarm" -> IF ev.b = 0 THEN SPush(sc, ev.fk, idx) ELSE SDeclare(SPush(sc, ev.fk, idx), ev.b, ev.bk, idx)
+    CASE ev.k \in {"enterfn", "enterblock", "enterbranch", "enterloop"} -> SPush(sc, ev.fk, ev.bk, idx)
+      [] ev.k = "enterarm" -> IF ev.b = 0 THEN SPush(sc, ev.fk, "-", idx) ELSE SDeclare(SPush(sc, ev.fk, "-", idx), ev.b, ev.bk, idx)
       [] ev.k \in ExitKinds -> SPop(sc, idx)
       [] ev.k = "declare" -> SDeclare(sc, ev.b, ev.bk, idx)
       [] ev.k = "use" -> SUse(sc, ev.b, G)
       [] ev.k = "slot" -> SSlot(sc, ev.s, idx)
+      [] ev.k = "quse" -> sc                      \* the member of a named module cannot be hidden by a local
+      [] ev.k = "module" -> [sc EXCEPT !.mod = ev.b]
+      [] ev.k = "top" -> [sc EXCEPT !.top = ev.b]
 
 RECURSIVE ScanFrom(_, _, _, _)
 ScanFrom(evs, i, sc, G) == IF i > Len(evs) THEN sc ELSE ScanFrom(evs, i + 1, ScanStep(sc, evs[i], G, i), G)
 Scan(evs, G, gk) == ScanFrom(evs, 1, ScanInit(G, gk), G)
-ScanTops(tops) == LET G == Globals(tops) IN Scan(LinTops(tops), G, [g \in G |-> GlobalKind(tops, g)])
+ScanTops(tops) == LET G == Globals(tops) IN Scan(LinTops(tops), G, [g \in DOMAIN G |-> GlobalKind(tops, g)])
 
 ProperColouring(conf, nm) == \A p \in conf : NameOf(nm, p[1]) # NameOf(nm, p[2])
 
 \* where a binder is visible
-InScope(sc, G, b, s) == b \in G \/ b \in sc.slots[s].vis
+InScope(sc, G, b, s) == (b \in DOMAIN G /\ VisibleIn(G, b, sc.slots[s].mod)) \/ b \in sc.slots[s].vis
 CommonLen(h, p) == MaxOfSet({i \in 0..MinOf2(Len(h), Len(p)) : \A j \in 1..i : h[j] = p[j]})
 \* position class of a slot where b is NOT visible: inside b's own frame it can only be before the declaration;
 \* otherwise the outermost frame of b's home that does not enclose the slot separates them
@@ -233,9 +304,12 @@ PosClass(sc, b, s) ==
     LET h == sc.home[b]
         sl == sc.slots[s]
         c == CommonLen(h, sl.path)
-    IN IF c = Len(h) THEN "before-decl"
+    IN IF sc.bk[b] \in {"global", "globalfn"} THEN "other-module"
+       ELSE IF c = Len(h) THEN "before-decl"
        ELSE (IF sl.idx < h[c + 1] THEN "before-" ELSE "after-") \o sc.fkOf[h[c + 1]]
 OwnFrame(sc, b) == IF Len(sc.home[b]) = 0 THEN "module" ELSE sc.fkOf[sc.home[b][Len(sc.home[b])]]
+\* declared in a scope that sits directly in a global's initialiser (no function around it)
+InGlobalInit(sc, b) == Len(sc.home[b]) > 0 /\ \A j \in 1..Len(sc.home[b]) : sc.fkOf[sc.home[b][j]] # "fn"
 \* b is declared while a is visible (b can shadow a) / the two never coexist
 Nests(sc, a, b) == LET ha == sc.home[a] hb == sc.home[b] IN
     /\ Len(ha) <= Len(hb) /\ SubSeq(hb, 1, Len(ha)) = ha /\ (Len(ha) = 0 \/ sc.declAt[a] <= sc.declAt[b])
@@ -277,40 +351,91 @@ Letters == <<"a", "b", "c", "d", "e", "f", "g", "h", "i", "j", "k", "l", "m",
              "n", "o", "p", "q", "r", "s", "t", "u", "v", "w", "x", "y", "z">>
 ColourName(c) == "k" \o Letters[((c - 1) \div 26) + 1] \o Letters[((c - 1) % 26) + 1]
 
+\* names with a role: the entry point, a std function, a std module, a member of a std module (no binder of its own),
+\* a type of the program.  As a naming value a role name is the fixed name of its binder (NameOf: 0 - id).
+NLen == 0 - 2999
+SpecialNames == {0 - SStart, 0 - StdPrint, 0 - StdList, NLen, 0 - TypeId("E")}
+NameStr(n) == IF n > 0 THEN PoolName[n]
+              ELSE CASE n = 0 - SStart -> "start" [] n = 0 - StdPrint -> "print" [] n = 0 - StdList -> "list"
+                     [] n = NLen -> "len" [] n = 0 - TypeId("E") -> "E"
+\* all distinct except that binder j carries a role name
+SpecialNaming(n, j, r) == [x \in 1..n |-> IF x = j THEN r ELSE x]
+SpecialNamings(n) == {SpecialNaming(n, j, r) : j \in 1..n, r \in SpecialNames}
+IsSpecial(nm) == \E j \in DOMAIN nm : nm[j] < 0
+SpecialAt(nm) == CHOOSE j \in DOMAIN nm : nm[j] < 0
+
 (* --------------------------------------------------------------- skeletons *)
 (* Small programs over the binder kinds of the property: parameters, block-, branch- and loop-locals, case  *)
-(* bindings, nested functions, module globals, recursion.  Renamable binders have ids 1..NB(i).  A skeleton *)
-(* is a function of a FILLER f: f[s] for s <= 20 is a sequence of statements spliced in at statement slot s, *)
-(* f[s] for s > 20 an int expression at expression slot s.  EmptyFill gives the base program, MarkFill marks *)
-(* the slots (to ask the machine what is visible there), PlantFill(s, b) plants one use of b at slot s.      *)
-SStart == 1000
+(* bindings, nested functions, module globals, recursion; scopes inside global initialisers that are not     *)
+(* function literals; a two-file program.  Renamable binders have ids 1..NB(i).  A skeleton is a function of *)
+(* a FILLER f: f[s] for s <= 20 is a sequence of statements spliced in at statement slot s, f[s] for s > 20  *)
+(* an int expression at expression slot s.  EmptyFill gives the base program, MarkFill marks the slots (to   *)
+(* ask the machine what is visible there), PlantFill(s, b, form) plants one use of b at slot s in the        *)
+(* syntactic position `form`.                                                                                *)
 TE == TName("E")
 EnumE == EnumD("E", <<VD1("X", TInt), VD0("Y")>>)
+BlobP == BlobD("P", <<FD("x", TInt)>>)
+BlobQ == BlobD("Q", <<FD("n", TInt), FD("get", TFn(<<>>, TInt))>>)
 StartD(body) == DefN(SStart, "const", TNone, Fn(<<>>, TVoid, body), "start")
 GDef(b, kind, ty, e) == DefN(b, kind, ty, e, "")
+UseTop(name) == [k |-> "use", name |-> name]
+ModuleTop(m, name) == [k |-> "module", m |-> m, name |-> name]
+QV(ns, b) == [k |-> "qvar", ns |-> ns, b |-> b]
 
 SlotIds == 1..40
 IsStmtSlot(s) == s <= 20
 EmptyFill == [s \in SlotIds |-> IF IsStmtSlot(s) THEN <<>> ELSE I(0)]
 MarkFill == [s \in SlotIds |-> IF IsStmtSlot(s) THEN <<[k |-> "slot", id |-> s]>> ELSE [k |-> "eslot", id |-> s]]
 PlantedV(b) == [k |-> "var", b |-> b, planted |-> TRUE]
-PlantFill(s0, b) == [s \in SlotIds |-> IF IsStmtSlot(s)
-                                       THEN (IF s = s0 THEN <<Print(PlantedV(b))>> ELSE <<>>)
-                                       ELSE (IF s = s0 THEN PlantedV(b) ELSE I(0))]
 
-NSkel == 12
+\* the syntactic positions a use can be written at (statement slots); "expr" is the expression slot itself
+StmtForms == {"arg", "ret-call", "ret-val", "cond", "loop-cond", "callee", "operand", "neg", "assert-eq", "tuple-elem",
+              "list-elem", "blob-field", "index-base", "field-base", "asg-target", "asg-value", "scrutinee"}
+TmpA == 90
+TmpB == 91
+FormStmts(form, b) ==
+    LET v == PlantedV(b) IN
+    CASE form = "arg" -> <<Print(v)>>
+      [] form = "ret-call" -> <<Ret(Call(Std("print"), <<v>>))>>                      \* `ret f(v)` handing over a void call
+      [] form = "ret-val" -> <<Ret(v)>>
+      [] form = "cond" -> <<Ex(If1(Bin("<", v, I(1)), <<Print(I(0))>>))>>
+      [] form = "loop-cond" -> <<Loop(Bin("<", v, I(0)), <<Break>>)>>
+      [] form = "callee" -> <<Ex(Call(v, <<>>)), Print(I(0))>>
+      [] form = "operand" -> <<Print(Bin("+", I(1), v))>>
+      [] form = "neg" -> <<Print(Un("-", v))>>
+      [] form = "assert-eq" -> <<Ex(Bin("<=>", v, I(1))), Print(I(0))>>
+      [] form = "tuple-elem" -> <<Print(Idx(Tup(<<v, I(1)>>), 0))>>
+      [] form = "list-elem" -> <<Print(Lst(<<I(1), v>>))>>
+      [] form = "blob-field" -> <<Print(Fld(BlobL("P", <<FI("x", v)>>), "x"))>>
+      [] form = "index-base" -> <<Print(Idx(v, 0))>>
+      [] form = "field-base" -> <<Print(Fld(v, "x"))>>
+      [] form = "asg-target" -> <<Asg("=", v, I(1))>>
+      [] form = "asg-value" -> <<DefM(TmpA, TInt, I(0)), Asg("=", V(TmpA), v)>>
+      [] form = "scrutinee" -> <<Ex(CaseE(v, <<CArmB("X", TmpB, <<Print(V(TmpB))>>)>>, <<Print(I(0))>>))>>
+PlantFill(s0, b, form) ==
+    [s \in SlotIds |-> IF IsStmtSlot(s)
+                       THEN (IF s = s0 THEN FormStmts(form, b) ELSE <<>>)
+                       ELSE (IF s = s0 THEN PlantedV(b) ELSE I(0))]
+
+NSkel == 17
 SkName(i) == <<"blocks", "ifelse", "ifvalue", "case", "caseelse", "loop", "params", "localfn", "global",
-               "fninbranch", "shadowparam", "mixed">>[i]
-NB(i) == <<3, 4, 4, 5, 4, 3, 5, 5, 4, 3, 5, 6>>[i]
-\* binders holding an int (only they can be planted at an expression slot without a type error)
+               "fninbranch", "shadowparam", "mixed", "ginit-if", "ginit-case", "ginit-lambda", "ginit-blob", "twofile">>[i]
+NB(i) == <<3, 4, 4, 5, 4, 3, 5, 5, 4, 3, 5, 6, 6, 6, 6, 3, 4>>[i]
+\* binders holding an int / a mutable int / a function without parameters / an enum value: the planted forms that
+\* need such a type are expected to be ACCEPTED only for them (out-of-scope uses are planted in every form)
 IntBinders(i) == <<{1, 2, 3}, {1, 2, 3, 4}, {1, 2, 3, 4}, {2, 3, 4, 5}, {2, 3, 4}, {1, 2, 3}, {2, 3, 5}, {1, 3, 4, 5},
-                   {1, 3, 4}, {1, 3}, {2, 3, 5}, {2, 4, 5, 6}>>[i]
+                   {1, 3, 4}, {1, 3}, {2, 3, 5}, {2, 4, 5, 6}, {1, 2, 3, 4, 5, 6}, {2, 3, 4, 5, 6}, {1, 3, 5, 6}, {1, 3},
+                   {1, 2, 4}>>[i]
+MutIntBinders(i) == <<{1, 2, 3}, {1, 2, 3, 4}, {1, 2, 3, 4}, {2, 4, 5}, {3, 4}, {1, 2, 3}, {3}, {1, 4, 5},
+                      {1, 4}, {1, 3}, {}, {5, 6}, {1, 3, 4, 5}, {2, 5, 6}, {1, 3, 6}, {1, 3}, {1, 2}>>[i]
+Fn0Binders(i) == IF i = 10 THEN {2} ELSE {}
+EnumBinders(i) == CASE i = 4 -> {1} [] i = 5 -> {1} [] i = 12 -> {3} [] i = 14 -> {1} [] OTHER -> {}
 
 \* (binder, slot) pairs left out: sylt rejects mutually dependent global definitions (a rule about initialisation
 \* order, not about scoping), so a global function is not planted inside a global it already calls
 NoPlant(i) == IF i = 7 THEN {<<4, 1>>, <<4, 2>>} ELSE {}
 
-Skel(i, f) ==
+SkelTops(i, f) ==
   CASE i = 1 ->   \* nested blocks
     <<StartD(f[1] \o <<DefM(1, TInt, I(1))>> \o f[2]
         \o <<Block(f[3] \o <<DefM(2, TInt, Bin("+", V(1), f[21])), Print(V(2))>> \o f[4]
@@ -384,6 +509,46 @@ Skel(i, f) ==
                       Break>>)>>
              \o f[5] \o <<Ex(V(2))>>)),
       StartD(f[6] \o <<Print(Call(V(1), <<I(0)>>))>>)>>
+    [] i = 13 ->  \* scopes inside a global's initialiser that is an if expression: bodies, a block, a loop
+    <<GDef(1, "mut", TInt, I(2)),
+      GDef(2, "const", TInt,
+           If2(Bin("<", V(1), I(3)),
+               f[1] \o <<DefM(3, TInt, Bin("+", V(1), f[21]))>> \o f[2]
+                    \o <<Block(<<DefM(5, TInt, V(3)), Print(V(5))>> \o f[3]),
+                         Loop(Bin("<", V(3), I(0)), <<Asg("=", V(3), I(1))>>)>> \o f[4] \o <<Ex(Bin("*", V(3), I(2)))>>,
+               f[5] \o <<DefM(4, TInt, I(7))>> \o f[6] \o <<Ex(V(4))>>)),
+      GDef(6, "const", TInt, Bin("+", I(1), f[22])),
+      StartD(f[7] \o <<Print(V(2)), Print(V(1)), Print(V(6))>>)>>
+    [] i = 14 ->  \* case arms (with and without a binding) inside a global's initialiser
+    <<EnumE,
+      GDef(1, "const", TE, Var1("E", "X", I(1))),
+      GDef(2, "mut", TInt, I(5)),
+      GDef(3, "const", TInt,
+           CaseT(V(1), <<CArmB("X", 4, f[1] \o <<DefM(5, TInt, Bin("+", V(4), V(2)))>> \o f[2] \o <<Ex(V(5))>>),
+                         CArm("Y", f[3] \o <<DefM(6, TInt, I(3))>> \o f[4] \o <<Ex(V(6))>>)>>)),
+      StartD(f[5] \o <<Print(V(3)), Print(V(2))>>)>>
+    [] i = 15 ->  \* function literals inside a list and inside a tuple at module level
+    <<GDef(1, "mut", TInt, I(4)),
+      GDef(2, "const", TNone, Lst(<<Fn(<<>>, TInt, f[1] \o <<DefM(3, TInt, Bin("+", V(1), I(1)))>> \o f[2] \o <<Ex(V(3))>>)>>)),
+      GDef(4, "const", TNone, Tup(<<Fn(<<P(5, TInt)>>, TInt, <<DefM(6, TInt, V(5))>> \o f[3] \o <<Ex(V(6))>>), I(3)>>)),
+      StartD(f[4] \o <<Print(Call(Std("list.len"), <<V(2)>>)), Print(Idx(V(4), 1)), Print(V(1))>>)>>
+    [] i = 16 ->  \* a method (function literal in a blob literal) at module level
+    <<BlobQ,
+      GDef(1, "mut", TInt, I(4)),
+      GDef(2, "const", TNone, BlobL("Q", <<FI("n", I(1)),
+                                           FI("get", Fn(<<>>, TInt, f[1] \o <<DefM(3, TInt, Bin("+", Fld(Self, "n"), V(1)))>>
+                                                                     \o f[2] \o <<Ex(V(3))>>))>>)),
+      StartD(f[3] \o <<Print(Call(Fld(V(2), "get"), <<>>)), Print(V(1))>>)>>
+    [] i = 17 ->  \* two files: the main module uses globals of module `other` by qualified name
+    <<UseTop("other"),
+      GDef(1, "mut", TInt, I(1)),
+      StartD(f[1] \o <<Ex(Call(QV("other", 3), <<I(2)>>)), Print(QV("other", 2)), Print(V(1))>>),
+      ModuleTop(2, "other"),
+      GDef(2, "mut", TInt, I(5)),
+      GDef(3, "const", TNone, Fn(<<P(4, TInt)>>, TVoid, f[2] \o <<Print(Bin("+", V(4), V(2)))>>))>>
+
+\* every skeleton declares the blob P the "blob-field" form needs
+Skel(i, f) == <<BlobP>> \o SkelTops(i, f)
 
 \* everything the specification derives from skeleton i (TLC does not cache definitions that depend on RECURSIVE
 \* operators, so this record is built once per use site with LET and passed around)
@@ -393,21 +558,51 @@ SkInfo(i) ==
     IN [i |-> i, nb |-> NB(i), base |-> base, G |-> Globals(base), evs |-> LinTops(base), sc |-> sc, slots |-> DOMAIN sc.slots]
 MaxShadowOf(k) == MaxShadow(k.evs, k.G, k.nb)
 
-\* the namings tried for a skeleton: all maps into a pool of `pool` names, all distinct, max shadow (ms), every single pair merged
-Namings(k, pool, ms) == [1..k.nb -> 1..pool] \cup {AllDistinct(k.nb), ms} \cup PairMerges(k.nb)
+\* the namings tried for a skeleton: all maps into a pool of `pool` names, all distinct, max shadow (ms), every single
+\* pair merged, every binder under every role name
+\* (sylt's grammar wants a case binding to start with a lower-case letter: a type's name is not offered to one)
+Namings(k, pool, ms) ==
+    [1..k.nb -> 1..pool] \cup {AllDistinct(k.nb), ms} \cup PairMerges(k.nb)
+    \cup {nm \in SpecialNamings(k.nb) : ~(nm[SpecialAt(nm)] = 0 - TypeId("E") /\ k.sc.bk[SpecialAt(nm)] = "casebind")}
 LegalNamings(k, pool, ms) == {nm \in Namings(k, pool, ms) : Legal(k.evs, k.G, nm)}
+NamingDescr(k, nm) ==
+    IF IsSpecial(nm)
+    THEN "special|" \o NameStr(nm[SpecialAt(nm)]) \o "|" \o OwnFrame(k.sc, SpecialAt(nm)) \o ":" \o k.sc.bk[SpecialAt(nm)]
+    ELSE PairDescr(k.sc, MergedPair(nm)[1], MergedPair(nm)[2])
 
-\* the (binder, slot) universe of the out-of-scope part: every renamable binder at every slot it can be written at
-Pairs(k) == {p \in (1..k.nb) \X k.slots : (IsStmtSlot(p[2]) \/ p[1] \in IntBinders(k.i)) /\ p \notin NoPlant(k.i)}
+\* the planted-use universe: (binder, slot, form).  A global is not planted inside its own initialiser unless it is a
+\* function (sylt calls that a dependency cycle: initialisation order, not scoping).
+Pairs(k) == {p \in (1..k.nb) \X k.slots :
+               /\ (IsStmtSlot(p[2]) \/ p[1] \in IntBinders(k.i))
+               /\ p \notin NoPlant(k.i)
+               /\ ~(k.sc.bk[p[1]] = "global" /\ k.sc.slots[p[2]].top = p[1])}
 PairInScope(k, b, s) == InScope(k.sc, k.G, b, s)
-PlantedTops(i, b, s) == Skel(i, PlantFill(s, b))
+\* is the form well typed for this binder at this slot (only then an in-scope use must be ACCEPTED)
+Fits(k, b, s, form) ==
+    CASE form \in {"arg", "expr"} -> TRUE
+      [] form = "ret-call" -> k.sc.slots[s].fnrt = "void"
+      [] form = "ret-val" -> k.sc.slots[s].fnrt = "value" /\ b \in IntBinders(k.i)
+      [] form \in {"cond", "loop-cond", "operand", "neg", "assert-eq", "tuple-elem", "list-elem", "asg-value"} ->
+            b \in IntBinders(k.i)
+      [] form = "blob-field" -> b \in IntBinders(k.i) /\ k.sc.slots[s].mod = 1        \* the blob P is a type of the main module
+      [] form = "callee" -> b \in Fn0Binders(k.i)
+      [] form = "asg-target" -> b \in MutIntBinders(k.i)
+      [] form = "scrutinee" -> b \in EnumBinders(k.i)
+      [] form \in {"index-base", "field-base"} -> FALSE
+FormsAt(k, b, s) ==
+    IF ~IsStmtSlot(s) THEN {"expr"}
+    ELSE IF PairInScope(k, b, s) THEN {fm \in StmtForms : Fits(k, b, s, fm)}
+    ELSE {fm \in StmtForms : /\ (fm \in {"ret-call", "ret-val"} => k.sc.slots[s].fnrt # "none")
+                              /\ (fm = "blob-field" => k.sc.slots[s].mod = 1)}
+Triples(k) == UNION {{<<p[1], p[2], fm>> : fm \in FormsAt(k, p[1], p[2])} : p \in Pairs(k)}
+PlantedTops(i, b, s, form) == Skel(i, PlantFill(s, b, form))
 \* what the machine says about the planted use under the all-distinct naming
-PlantedResult(k, b, s) ==
-    LET r == Resolve(LinTops(PlantedTops(k.i, b, s)), k.G, AllDistinct(k.nb))
+PlantedResult(k, b, s, form) ==
+    LET r == Resolve(LinTops(PlantedTops(k.i, b, s, form)), k.G, AllDistinct(k.nb))
         pl == {j \in 1..Len(r) : r[j].p = 1}
     IN [n |-> Cardinality(pl), r |-> IF pl = {} THEN 0 - 1 ELSE r[CHOOSE j \in pl : TRUE].r]
 PosClasses == {"before-decl", "after-block", "after-if-branch", "after-elif-branch", "after-else-branch",
-               "after-case-arm", "after-case-else", "after-loop", "after-fn", "before-fn"}
+               "after-case-arm", "after-case-else", "after-loop", "after-fn", "before-fn", "other-module"}
 (* ---------------------------------------- big programs (SyltGen's universe) *)
 \* every binder except `start` is renamed: globals in top-level order, then locals in declaration order
 IsRenamableGlobal(b) == b # 0 /\ b # SStart
@@ -415,7 +610,7 @@ GOrder(tops) == SelectSeq([i \in 1..Len(tops) |-> IF tops[i].k = "def" THEN tops
 GenNaming(tops) ==
     LET G == Globals(tops)
         evs == LinTops(tops)
-        sc == Scan(evs, G, [g \in G |-> "global"])
+        sc == Scan(evs, G, [g \in DOMAIN G |-> "global"])
         order == GOrder(tops) \o sc.order
         col == Greedy(order, sc.conf)
     IN [legal |-> WellNested(evs) /\ Legal(evs, G, col),
